@@ -404,8 +404,9 @@ theorem listing_matches_print (level : Nat) (t : Tmpl) (hw : t.wf = true) :
 
 /-! ### every tree the API can build: any history of factory calls and fills -/
 
-/-- the trees reachable through the item API: the nine factories (a list factory on reachable
-items) and FillVariables on a reachable tree with a table whose fill-in items are reachable -/
+/-- the trees reachable through the library: the nine factories (a list factory on reachable
+items), FillVariables on a reachable tree with a table whose fill-in items are reachable, the items
+of the messages `sml.Parse` returns for any text, and the items `hsms.Parse` decodes from any bytes -/
 inductive Reach : Tmpl → Prop
   | int (w : Nat) (args : List GoVal) (t : Tmpl) : mkInt w args = some t → Reach t
   | uint (w : Nat) (args : List GoVal) (t : Tmpl) : mkUint w args = some t → Reach t
@@ -418,6 +419,9 @@ inductive Reach : Tmpl → Prop
   | list (args : List GoVal) (t : Tmpl) : (∀ x, GoVal.item x ∈ args → Reach x) → mkList args = some t → Reach t
   | fill (t t' : Tmpl) (env : Env) : Reach t → (∀ k x, (k, GoVal.item x) ∈ env → Reach x) →
       t.fill env = some t' → Reach t'
+  | parsed (ual : List Nat) (input : Bytes) (msgs : List Msg) (errs warns : List Sml.Diag) (m : Msg) :
+      Sml.parse ual input = .done msgs errs warns → m ∈ msgs → Reach m.item
+  | decoded (fuel : Nat) (inp : Bytes) (t : Tmpl) (r : Bytes) : decItem fuel inp = some (t, r) → IsBytes inp → Reach t
 
 theorem itemsWfS_of_forall : ∀ (args : List GoVal), (∀ x, GoVal.item x ∈ args → x.wfS = true) → itemsWfS args = true
   | [], _ => rfl
@@ -449,6 +453,8 @@ theorem reachable_well_formed (t : Tmpl) (h : Reach t) : t.wfS = true := by
   | empty => rfl
   | list args t _ h ih => exact mkList_wfS args t h (itemsWfS_of_forall args ih)
   | fill t t' env _ _ h iht ihenv => exact t.fill_wfS t' env iht (envItemsWfS_of_forall env ihenv) h
+  | parsed ual input msgs errs warns m h hm => exact Sml.parse_wf ual input msgs errs warns h m hm
+  | decoded fuel inp t r h hb => exact wfS_of_wf t (decItem_wf fuel inp t r h hb).1
 
 /-- … so **no name occurs twice anywhere in it** -/
 theorem reachable_names_unique (t : Tmpl) (h : Reach t) : nodupNames t.vars = true :=
@@ -458,6 +464,11 @@ theorem reachable_names_unique (t : Tmpl) (h : Reach t) : nodupNames t.vars = tr
 theorem parsed_well_formed (ual : List Nat) (input : Bytes) (msgs : List Msg) (errs warns : List Sml.Diag)
     (h : Sml.parse ual input = .done msgs errs warns) : ∀ m ∈ msgs, m.item.wfS = true :=
   Sml.parse_wf ual input msgs errs warns h
+
+/-- … and is a valid message (what `DataMessage.checkRep` demands of name, codes, wait bit, direction) -/
+theorem parsed_valid (ual : List Nat) (input : Bytes) (msgs : List Msg) (errs warns : List Sml.Diag)
+    (h : Sml.parse ual input = .done msgs errs warns) : ∀ m ∈ msgs, m.valid = true :=
+  fun m hm => (Sml.parse_valid_wf ual input msgs errs warns h m hm).1
 
 /-- … in which no name occurs twice -/
 theorem parsed_names_unique (ual : List Nat) (input : Bytes) (msgs : List Msg) (errs warns : List Sml.Diag)
